@@ -197,7 +197,7 @@ Section Blocks.
         split; [reflexivity|]. split; [lia|]. split; [lia|]. split.
         * destruct Hm as [->|Hm]; [left; reflexivity|right].
           destruct bl as [|b2 bl2]; [unfold enc_blocks in Hm; cbn [firstn map concat length] in Hm; lia|].
-          lia.
+          cbn [firstn] in Hm. lia.
         * intros Ek. rewrite Hf by lia. reflexivity.
   Qed.
 End Blocks.
@@ -207,4 +207,4 @@ Example avro_example :
   let bl := [(2, [5; 6; 7]); (0, []); (300, [1])] in
   read_all_blocks sync (firstn 25 (enc_blocks sync bl)) = (firstn 1 bl, End) /\
   read_all_blocks sync (enc_blocks sync bl) = (bl, End).
-Proof. cbv. split; reflexivity. Qed.
+Proof. vm_compute. split; reflexivity. Qed.
